@@ -98,4 +98,89 @@ MUTANTS = [
 			// upgrade msize if server differs.
 			ch.SetMSize(int(v.MSize))
 		}""", """		ch.SetMSize(int(v.MSize))""")]),
+
+ # ---- C14
+ ("c14-stat-no-unlock", "C14", [("sfilesys.go", """	defer ref.Unlock()
+
+	return ref.Ent.Stat(ctx)""", """	return ref.Ent.Stat(ctx)""")]),
+ ("c14-walk-closure-no-newref-unlock", "C14", [("sfilesys.go", """			sess.refs.Delete(newfid)
+			newref.Unlock()""", """			sess.refs.Delete(newfid)""")]),
+ ("c14-getref-no-unlock-on-nil-ent", "C14", [("sfilesys.go", """	if ref.Ent == nil {
+		ref.Unlock()
+		return nil, ErrUnknownfid
+	}
+
+	return ref, nil""", """	if ref.Ent == nil {
+		return nil, ErrUnknownfid
+	}
+
+	return ref, nil""")]),
+ ("c14-getref-no-lock", "C14", [("sfilesys.go", """	ref.Lock()
+	// Guard against deletion just after our lookup.
+	if ref.Ent == nil {
+		ref.Unlock()
+		return nil, ErrUnknownfid
+	}""", """	// Guard against deletion just after our lookup.
+	if ref.Ent == nil {
+		return nil, ErrUnknownfid
+	}
+	ref.Lock()""")]),
+ ("c14-walk-swap-keeps-old-lock", "C14", [("sfilesys.go", """		ref.Unlock()
+		ref = newref
+		newref = nil""", """		ref = newref
+		newref = nil""")]),
+ ("c14-wstat-early-unlock", "C14", [("sfilesys.go", """	defer ref.Unlock()
+
+	return ref.Ent.WStat(ctx, dir)""", """	ent := ref.Ent
+	ref.Unlock()
+
+	return ent.WStat(ctx, dir)""")]),
+ ("c14-open-double-unlock", "C14", [("sfilesys.go", """	err = openLocked(ctx, ref, mode)
+	if err != nil {
+		return Qid{}, 0, err
+	}""", """	err = openLocked(ctx, ref, mode)
+	if err != nil {
+		ref.Unlock()
+		return Qid{}, 0, err
+	}""")]),
+ ("c14-read-clunk-inside", "C14", [("sfilesys.go", """	if ref.File == nil {
+		return 0, MessageRerror{Ename: "no file open"} //ErrClosed
+	}
+	if (ref.Mode & OEXEC) == OWRITE {""", """	if ref.File == nil {
+		sess.Clunk(ctx, fid)
+		return 0, MessageRerror{Ename: "no file open"} //ErrClosed
+	}
+	if (ref.Mode & OEXEC) == OWRITE {""")]),
+ ("c14-delref-no-lock", "C14", [("sfilesys.go", """	ref.Lock()
+	defer ref.Unlock()
+	if ref.Ent == nil {
+		return nil
+	}
+
+	return delRefAction(ctx, ref, remove)""", """	if ref.Ent == nil {
+		return nil
+	}
+
+	return delRefAction(ctx, ref, remove)""")]),
+ ("c14-auth-error-path-locked", "C14", [("sfilesys.go", """	aref, err := sess.newRef(afid)
+	if err != nil {
+		return aq, err
+	}
+	defer aref.Unlock()
+
+	afile, err := sess.fs.Auth(ctx, uname, aname)
+	if err != nil { // need to re-acquire session lock to delete
+		sess.refs.Delete(afid)
+		return aq, err
+	}""", """	aref, err := sess.newRef(afid)
+	if err != nil {
+		return aq, err
+	}
+
+	afile, err := sess.fs.Auth(ctx, uname, aname)
+	if err != nil { // need to re-acquire session lock to delete
+		sess.refs.Delete(afid)
+		return aq, err
+	}
+	defer aref.Unlock()""")]),
 ]
